@@ -96,6 +96,7 @@ RICH = [
     "{{ 'a ${ \"b\" } c ${ x | default: \"d ${ 'e' } f\" } g' }}{% assign s = \"${ 'p' }${ 'q' }\" %}",
     "{% extends 'p' %}\n\n{% block b %}\n  {{ 1 | divided_by: 0 }}{% endblock %}", "{% extends 'p' %}{% block b %}{{ block.super | nosuchfilter }}{% endblock %}",
     "{% extends 'p' %}{% block b %}x{% render 'nosuchpartial' %}{% endblock %}", "{% extends 'p' %}{% block b %}{% for i in 5 %}{% endfor %}{% endblock %}",
+    "{% include 'lib' %}\n\n{% call m 1 %}", "{% include 'lib' %}{% call n %}", "{% include 'lib' %}{% for i in (1..2) %}{% call m i, y: 3 %}{% endfor %}",
     "{{ x }}\n{% if %}",
     "{% for %}",
     "text only",
@@ -106,7 +107,8 @@ RICH = [
 def envs():
     return [
         ("default", impl.make_env(limits={"loop_iteration_limit": 1000, "output_stream_limit": 100000},
-                                  templates={"p": "{{ a }}{% block b %}P{% endblock %}"})),
+                                  templates={"p": "{{ a }}{% block b %}P{% endblock %}",
+                                             "lib": "{# a library of macros #}\n{% macro m x, y: 2 %}\n\n  {{ x | divided_by: 0 }}{% endmacro %}{% macro n %}{% render 'nosuchpartial' %}{% endmacro %}"})),
         ("shorthand", impl.make_env(shorthand=True, limits={"loop_iteration_limit": 1000},
                                     templates={"p": "{{ a }}"})),
     ]
